@@ -32,7 +32,7 @@ class BuildSolution(Contract):
         "solution.SchedulingSolution.add_indicator_solution",
         "solution.SchedulingSolution.get_scheduled_tasks",
     )
-    props = ("C11", "C01", "C02", "C06")
+    props = ("C11", "C01", "C02", "C06", "C05")
     diff = "eval"
     bounded = "1..2 tasks, one requirement each (static / delayed / dynamic / selection of 2 / cumulative of size 2); all integers symbolic"
 
@@ -108,6 +108,12 @@ class BuildSolution(Contract):
         out = []
         if not is_solution(sol):
             out.append(Clause("state[no solution object without a sat answer]", z3.BoolVal(sol is False), props=("C11",), kind="state"))
+            if P.symbolic:
+                # C05: `no solution` is only reported on unsat / unknown, and unsat is about exactly what initialize() stacked
+                G = ctx["solver"]._solver
+                out.append(Clause("post[False is returned only when z3 does not answer sat]", z3.BoolVal(G.last != z3.sat), props=("C05",), kind="sound"))
+                if G.last == z3.unsat:
+                    out.append(Clause("post[the infeasibility verdict is about the problem's constraint system, nothing more]", And(*G.unsat_facts[-1]) == And(*G.stack()), props=("C05",), kind="sound"))
             return out
         hz = T(sol.horizon)
         C11, C01, C02, C06 = [], [], [], []
